@@ -370,6 +370,55 @@ func runC16(w *World, r *Report) {
 		}
 	}
 
+	r.Rule("C16.task-manager-gets-all-options", "initTaskManager stores the run's call options as they came: node callbacks are looked up in them when a task starts (a list filtered by the NUMBER of designated paths drops a callbacks option designated to two nodes)", 1)
+	{
+		itm := w.Fn("compose", "runner.initTaskManager")
+		fOpts := w.Field("compose", "taskManager", "opts")
+		var optsP *ssa.Parameter
+		for _, p := range itm.Params {
+			if sl, ok := p.Type().Underlying().(*types.Slice); ok {
+				if nm := namedOf(sl.Elem()); nm != nil && nm.Obj().Name() == "Option" {
+					optsP = p
+				}
+			}
+		}
+		n := 0
+		for _, fw := range fieldWrites(itm) {
+			if !sameField(fw.field, fOpts) {
+				continue
+			}
+			n++
+			r.Check(optsP != nil && fw.val == ssa.Value(optsP), "C16.task-manager-gets-all-options", "initTaskManager: taskManager.opts = the options of the call", fw.in.Pos(), "the parameter itself", "the task manager gets a filtered / rebuilt list instead of the call's options: an option the filter wrongly leaves out (callbacks designated to several nodes by one option — DesignateNode(\"a\",\"c\")) is never seen when the node's callbacks are initialised; the handler does not fire and nothing is reported")
+		}
+		if n == 0 {
+			undecidedf("C16.task-manager-gets-all-options: initTaskManager does not store taskManager.opts")
+		}
+	}
+
+	r.Rule("C16.every-path-resolved", "extractOption resolves the first element of every designated path among the graph's nodes before it does anything else with the path: no way through an iteration of the loop over an option's paths gets round the lookup (callbacks designated to a node that does not exist are an error of the call, like a component option is)", 1)
+	{
+		eo := w.Fn("compose", "extractOption")
+		var nodesP *ssa.Parameter
+		for _, p := range eo.Params {
+			if _, ok := p.Type().Underlying().(*types.Map); ok {
+				nodesP = p
+			}
+		}
+		var lookups []*ssa.Lookup
+		instrs(eo, func(in ssa.Instruction) {
+			if lk, ok := in.(*ssa.Lookup); ok && lk.CommaOk && nodesP != nil && lk.X == ssa.Value(nodesP) {
+				lookups = append(lookups, lk)
+			}
+		})
+		if len(lookups) == 0 {
+			undecidedf("C16.every-path-resolved: extractOption never looks a key up in its nodes table with comma-ok")
+		}
+		for i, lk := range lookups {
+			skip, wit := iterationSkips(eo, lk)
+			r.Check(!skip, "C16.every-path-resolved", fmt.Sprintf("extractOption: node lookup #%d lies on every way through its loop", i+1), lk.Pos(), "no iteration avoids it", "a path can be disposed of before its node is looked up ("+wit+"): WithCallbacks(h).DesignateNode(\"typo\") succeeds and the handler silently never fires — the unknown-node error is only reached by options that carry component options")
+		}
+	}
+
 	// ---- error-arms
 	r.Rule("C16.one-path-per-key", "Option.DesignateNode turns each of its keys into a path of its own: every NewNodePath call in it takes a one-element list whose element is one element of the key list (never the key list itself, which would be ONE nested path k1/k2/…)", 1)
 	{
